@@ -9,7 +9,7 @@
    rule-legal, every recorded position is the rule-defined successor (Chess.apply) of its predecessor, and the recorded
    per-move flags are exactly the rules' capture / check / checkmate and the standard disambiguation class
    (SanSpec.spec_props) — by C01–C05, C14. *)
-Require Import LC.model.Prims LC.model.Board LC.model.Text LC.model.San LC.model.Game LC.spec.TextSpec LC.proofs.C12Proofs LC.proofs.C13Proofs LC.proofs.C11Proofs LC.proofs.Reach LC.proofs.C13Flags.
+Require Import LC.model.Prims LC.model.Board LC.model.Text LC.model.San LC.model.Game LC.spec.TextSpec LC.proofs.C12Proofs LC.proofs.C13Proofs LC.proofs.C11Proofs LC.proofs.Reach LC.proofs.C13Flags LC.model.Pgn LC.proofs.PgnImport.
 Open Scope N_scope.
 
 Theorem C13_chain : forall K b g l, game_from_board b = Ok g ->
@@ -36,3 +36,9 @@ Proof. intros g p0 H. unfold history_string. rewrite H. cbn. now rewrite history
 Theorem C13_rule_game : forall K b0 g0 acts, Good K b0 -> game_from_board b0 = Ok g0 -> Forall wf_action acts ->
   let g := run K g0 acts in RuleChain K (g_positions g) (g_moves g) (g_meta g).
 Proof. exact history_is_rule_game. Qed.
+(* "separately delimited tokens": for every game from every valid start, either side moving first, the move pattern of
+   the PGN importer (leftmost-first search, model/Pgn.v) recovers from the rendered move list exactly the SAN texts of
+   the recorded moves, in order — no token fuses with a move number, a dot, or its neighbour *)
+Theorem C13_tokens_delimited : forall K b0 g0 acts, Good K b0 -> game_from_board b0 = Ok g0 -> Forall wf_action acts ->
+  let g := run K g0 acts in exists hs, history_string g = Ok hs /\ scan_moves hs = san_list g.
+Proof. exact history_tokens. Qed.
